@@ -57,7 +57,7 @@ theorem c04_OutGood_append {style : StrokeStyle K} {out : List (PathEl K)} {cs :
   · exact hcs x h
 
 theorem c04_Good_ne_nil {style : StrokeStyle K} {x : List (PathEl K)} (h : c04_Good style x) : x ≠ [] := by
-  rcases h with ⟨p, mid, rfl, _⟩ | ⟨_, q, s, n, mid, rfl, _⟩ <;> exact List.cons_ne_nil _ _
+  rcases h with ⟨p, mid, rfl, _⟩ | ⟨_, q, tl, s, n, mid, rfl, _⟩ <;> exact List.cons_ne_nil _ _
 
 def c04_I (style : StrokeStyle K) (pre : List (PathEl K)) (c : StrokeCtx K) : Prop :=
   C04Inv c ∧ c04_OutGood style c.output ∧ C04TrkOK (c04_trk pre) c
